@@ -38,6 +38,8 @@ func init() {
 	verifKinds["c13.grpcrt"] = verifC13GrpcRT
 	verifKinds["c13.cerr"] = verifC13Cerr
 	verifKinds["c13.ces"] = verifC13Ces
+	verifKinds["c13.cerrrt"] = verifC13CerrRT
+	verifKinds["c13.cesrt"] = verifC13CesRT
 	verifKinds["c13.wire"] = verifC13Wire
 	verifKinds["c13.nocrash"] = verifC13NoCrash
 	// oracles (library behaviour handed to the model as data)
@@ -557,6 +559,34 @@ func verifC13Ces(args []vsx) vsx {
 	p := &verifC13Printer{}
 	examineConnectEndStream(args[0].b, p)
 	return p.tags(args[2].boolean())
+}
+
+// code msg details text(the reference server's real unary error body) digest -> (tree, feedback incl. debug-data complaints)
+func verifC13CerrRT(args []vsx) vsx {
+	if len(args) != 5 || !verifC13DigestOK(args) {
+		return verifC13BadCase()
+	}
+	tree, ok := verifC13JSONTree(args[3].b)
+	if !ok {
+		return vErr("rendering-is-not-json")
+	}
+	p := &verifC13Printer{}
+	examineConnectError(args[3].b, p)
+	return vL(tree, p.tags(true))
+}
+
+// has-error code msg details trailers text(the reference server's real end-of-stream message) digest -> (tree, feedback)
+func verifC13CesRT(args []vsx) vsx {
+	if len(args) != 7 || !verifC13DigestOK(args) {
+		return verifC13BadCase()
+	}
+	tree, ok := verifC13JSONTree(args[5].b)
+	if !ok {
+		return vErr("rendering-is-not-json")
+	}
+	p := &verifC13Printer{}
+	examineConnectEndStream(args[5].b, p)
+	return vL(tree, p.tags(true))
 }
 
 // ctype status body body-tree eos(opt) eos-tree headers trailers hasData err table
